@@ -6,6 +6,7 @@ use crate::stats::{CaseOutcome, Stats};
 
 pub mod common;
 pub mod graph;
+pub mod history;
 
 pub const DEFAULT_SEED: u64 = 20261004;
 
@@ -21,12 +22,15 @@ pub struct Ctx<'a> {
     pub cache: &'a mut common::Cache,
 }
 
-pub const CLAIMED: [&str; 3] = ["C02", "C03", "C05"];
+pub const CLAIMED: [&str; 8] = ["C02", "C03", "C05", "C06", "C07", "C08", "C09", "C10"];
 
 /// Number of cases for a property and tier.
 pub fn budget(prop: &str, tier: Tier) -> u64 {
     let q = match prop {
         "C02" | "C03" | "C05" => 20_000,
+        "C06" | "C07" | "C09" => 6_000,
+        "C08" => 5_000,
+        "C10" => 8_000,
         _ => 10_000,
     };
     match tier {
@@ -38,6 +42,7 @@ pub fn budget(prop: &str, tier: Tier) -> u64 {
 pub fn gen_case(prop: &str, seed: u64, index: u64, tier: Tier) -> Case {
     match prop {
         "C02" | "C03" | "C05" => graph::gen(prop, seed, index, tier),
+        "C06" | "C07" | "C08" | "C09" | "C10" => history::gen(prop, seed, index, tier),
         _ => panic!("unknown property {prop}"),
     }
 }
@@ -45,6 +50,7 @@ pub fn gen_case(prop: &str, seed: u64, index: u64, tier: Tier) -> Case {
 pub fn run_case(case: &Case, ctx: &mut Ctx) -> CaseOutcome {
     match case.property.as_str() {
         "C02" | "C03" | "C05" => graph::run(case, ctx),
+        "C06" | "C07" | "C08" | "C09" | "C10" => history::run(case, ctx),
         p => {
             let mut o = CaseOutcome::default();
             o.harness_error = Some(format!("no engine for property {p}"));
@@ -65,12 +71,20 @@ pub fn rule(prop: &str) -> &'static str {
         "C02" => "case = (generated acyclic project with stale files planted at every generated path, input selection, mode, K, seeded schedule); 4 schedules per project. Non-trivial = the required closure has at least one dependency edge and the run returned Ok; distinct = distinct hash of (project bytes, config, action list).",
         "C03" => "case = (generated digraph project incl. cyclic ones, input list with duplicates/aliases, K, seeded schedule). Non-trivial = at least 2 pool tasks for source files and at least one asserted marker; distinct = distinct hash of (project bytes, config, action list).",
         "C05" => "case = (generated digraph project with self-loops / 2-cycles / longer cycles / bystanders, input selection, K, seeded schedule). Non-trivial = the required closure contains a file that can reach a cycle; distinct = distinct hash of (project bytes, config, action list).",
+        "C06" => "case = history (build; verify; one disturbance: single-byte tamper / insert / delete / append / truncate / remove of an output in or outside the closure, trailing-newline flag flip, or source edit; verify), every invocation under its own seeded schedule. Non-trivial = a verify that must fail; distinct = distinct (project, history, action lists).",
+        "C07" => "case = history (optional build; optional removal of generated files; clean; clean again) on projects with and without directive errors, every invocation under a seeded schedule, whole-tree snapshots before/after. Every clean run is non-trivial; distinct = distinct (project, history, action lists, op index).",
+        "C08" => "case = history ending in a build whose result is compared with the same build (same schedule seed) from a pristine tree; pre-states: every generated path independently absent/stale/empty/prefix/random (valid and invalid UTF-8); build-build; needed-build; crash image at a seeded scheduler step with files of the interrupted action torn (old/empty/prefix/full), optionally a needed-build on the image. distinct = distinct (project, history, action lists).",
+        "C09" => "case = history (build; 0-3 edits/tamperings/deletions; optional verify; sentinel mtimes; checkpoint) then twin runs build and --needed from the identical pre-state under the same schedule seed. Non-trivial = at least one generated file kept untouched and at least one brought up to date in the same case.",
+        "C10" => "case = history of 1-4 invocations in modes build/needed/verify/clean on projects with decoy files and (one third) an erroneous source, whole-tree snapshot diff (bytes, inode, mtime) around every invocation. Non-trivial = an invocation that changed at least one path.",
         _ => "",
     }
 }
 
-pub fn per_project(_prop: &str) -> u64 {
-    4
+pub fn per_project(prop: &str) -> u64 {
+    match prop {
+        "C02" | "C03" | "C05" => 4,
+        _ => 2,
+    }
 }
 
 pub fn rng_for(seed: u64, prop: &str, index: u64, label: &str) -> Rng {
@@ -116,6 +130,11 @@ pub fn expected_probes(prop: &str) -> &'static [&'static str] {
             "c05.bystanders_checked",
             "c05.runs_without_cycle",
         ],
+        "C06" => &["c06.verify_expected_ok", "c06.verify_expected_err", "fault.F9_tamper.Flip", "fault.F9_tamper.Truncate", "fault.F9_tamper.Remove", "fault.F9_tamper.Append"],
+        "C07" => &["c07.exact_restoration_checked"],
+        "C08" => &["fault.F11_crash_images", "probe.crash_image_with_task_in_flight", "fault.F11_torn_files", "fault.F10_prestate.invalid_utf8", "c08.variant.build-build", "c08.variant.needed-build"],
+        "C09" => &["c09.files_kept_untouched", "c09.files_brought_up_to_date"],
+        "C10" => &["c10.ops.clean.Ok", "c10.ops.verify.Err", "c10.ops.build.Err", "c10.ops.needed.Ok"],
         _ => &[],
     }
 }
